@@ -48,7 +48,7 @@ def glue_frame(rng, ops, kind):
 
 
 def schedule(rng, n, flow):
-    ops = ['fsm new 0 map', 'fsm new 1 enum', 'tbl new 0', 'clock %d' % rng.choice([0, 1, 5000])]
+    ops = ['fsm new 0 map', 'fsm new 1 enum', 'tbl new 0', 'clock %d' % rng.choice([0, 1, 5000, 5000, 2**32 - 700, 2**32 + 5000, 2**40 + 123])]
     for _ in range(n):
         c = rng.random()
         if c < 0.30:
